@@ -113,7 +113,7 @@ func (h *Home) Retry(ctx context.Context, file, reqID string) (string, *dag.DAG,
 // Restart does what cmd/restart.go does after the stop: reload with the
 // parameters of the latest run and start again.
 func (h *Home) Restart(ctx context.Context, file string) (string, *dag.DAG, error) {
-	d0, err := dag.Load("", file, "")
+	d0, err := dag.LoadWithoutEval(file) // identification only, as cmd/restart.go does
 	if err != nil {
 		return "", nil, err
 	}
